@@ -25,7 +25,7 @@ PROPS = {
             {"bin": "oracle_c12", "min_stats": {"systems": 0.5, "request_permutations": 2.36, "renumberings": 0.948, "outcomes_compared": 3.32}, "quick": ("{seed}", "4000"), "thorough": ("{seed}", "20000")},
         ],
         "partial": ["solve_equivariant is proved per priority level over the reals (solveInner_perm, solveInner_renumber, with newtonStep/newtonLoop versions): reordering the requests gives the same values, iterations, solved priority and under-constrained set, the same unsatisfied requests and warnings up to order (equal after sorting: unsatisfied_sorted_eq); renumbering the variables gives the reordered values and otherwise the identical outcome; the solver hypotheses (RowPermSolve, ColPermSolve) are shown to hold for exact total solvers (rowPermSolve_of_exact, colPermSolve_of_exact via step_row_perm / step_col_perm / step_unique). Not invariant, and stated so (solveInner_perm_invalid): which request a MissingGuess error names when several requests have missing guesses (first in list order). At the public entry point (solveWithPriority_perm, solveWithPriority_renumber; solve without analysis): request ids are pure labels (solveInner_relabel_cases), enumerate of a permuted list is a permutation of the relabelled entries, the levels are equal, so both runs take the same decisions level by level: same values, iterations and solved priority, unsatisfied requests and warnings mapped through the position bijection (up to order), or the same failure",
-                    "with analysis (Real/EquivarianceDof.lean): the under-constrained list is a function of the kernel of the analysed Jacobian only (dof_same_kernel, spectrum gap needed, participation gap not), hence equal under request permutation (dof_row_perm, solveInner_perm_withAnalysis, solveWithPriority_perm_withAnalysis) and mapped through the renumbering under variable renumbering (dof_col_perm, solveInner_renumber_withAnalysis, solveWithPriority_renumber_withAnalysis with the relation RenumEqDof; the older RenumEq demands equal lists and is only right without analysis); the SVD contract is assumed for the two Jacobians actually analysed (SvdGood), not for all matrices; renumber_example_with_step and perm_example_with_step (Real/EquivarianceExamples.lean) instantiate both entry-point theorems on runs that SUCCEED after a genuine Newton step with the code's damping 1e-9 and an exact solver, and derive the second run's values / iterations / under-constrained list from the theorem's relation, not by recomputation",
+                    "with analysis (Real/EquivarianceDof.lean): the under-constrained list is a function of the kernel of the analysed Jacobian only (dof_same_kernel, spectrum gap needed, participation gap not), hence equal under request permutation (dof_row_perm, solveInner_perm_withAnalysis, solveWithPriority_perm_withAnalysis) and mapped through the renumbering under variable renumbering (dof_col_perm, solveInner_renumber_withAnalysis, solveWithPriority_renumber_withAnalysis with the relation RenumEqDof; the older RenumEq demands equal lists and is only right without analysis); the SVD contract is assumed for the two Jacobians actually analysed (SvdGood), not for all matrices; renumber_example_with_step and perm_example_with_step (Real/EquivarianceExamples.lean) instantiate both entry-point theorems on runs that SUCCEED after a genuine Newton step with the code's damping 1e-9, an exact solver and the configuration (30 rounds, tolerances 1e-5 - not the default 35 / 1e-8 / 1e-12), and derive the second run's values / iterations / under-constrained list from the theorem's relation, not by recomputation",
                     "'up to numerical noise': summation order inside faer changes with row / column order; left to the oracle on the real code (known finding F16: on inconsistent rank-deficient systems one order converges and another does not)"],
         "assumptions": ["the LU answer is a parameter; over the reals it is characterised by IsStep, which is what the permutation theorems are about"],
         "rule": "planted and linear systems; all request permutations for <= 4 requests, random samples otherwise; random variable renumberings with the guess list reordered to match; verdicts, solved priority and under-constrained sets must match exactly through the permutation, values of constrained variables within 1e-6*scale, under-constrained ones within 1e-2*scale with every constraint still satisfied",
@@ -98,7 +98,7 @@ PROPS = {
         "oracles": [
             {"bin": "oracle_c02", "min_stats": {"checked": 0.35, "with_short_feature": 0.0487, "fully_pinned": 0.1, "full_rank": 0.04}, "quick": ("{seed}", "15000"), "thorough": ("{seed}", "200000")},
         ],
-        "partial": ["convergence of the f64 iteration (success, iteration count <= 8, landing within 1.5x) is NOT proved: the theorems give the loop's anatomy (every round is residual test -> damped step of the Jacobian at the current point -> step test), existence/uniqueness/descent of the exact step, monotone approach on consistent linear systems, and the abstract contraction argument with the constant 1.5; that a given planted system satisfies the contraction hypothesis is left to the oracle on the real code; the exact-arithmetic statement is now instantiated for the MODEL's own assembled residual and Jacobian (Real/FDerivEntry.lean): for request lists made of every kind (PointArcCoincident: see the end of this note) (Real/FDerivKinds.lean: the guard-free kinds with no hypothesis, distance / linesEqualLength / arcRadius with points strictly farther apart than EPS; Real/FDerivKinds2.lean: the three point-line distances, lineTangentToCircle, symmetric, arcLength, circleTangentToCircle, explicit angles and arcAngle, each under the hypothesis that every guard of its residual and Jacobian kernel is strictly inactive at x* and, for the angle kinds, that x* is off the atan2 cut - RegularAt2) the assembled residual rOf is Frechet differentiable at x* with derivative the model's Jacobian JOf, JOf is continuous there (hasFDerivAt_rOf_regular), one continuing round of the model's newtonStep with an exact solver IS the map x -> x - (J^T J + lambda I)^-1 J^T r(x) (newtonStep_eq_gnMap, all kinds), and hence for a zero x* with sigma_min(J)^2 >= c > lambda the CONTINUING rounds the model's loop executes from within rho of x* halve the error and stay within 1.5|x0 - x*| of the guess (model_newtonRun_C02, model_newtonRun_C02_2; four concrete non-linear systems meet the hypotheses of the gnMap form with lambda = 1e-9; and - Real/FDerivLoop.lean - for the RESULT of the loop, including the extra step of a step-size return: model_newtonLoop_C02 (|res.values - x*| <= (1/2)^(iterations - k) |x - x*| and |res.values - x| <= 1.5 |x - x*|), model_solveInner_C02 and model_solve_C02_single_level (the same two bounds for o.finalValues relative to the guesses at the public entry point with one priority level; loop_C02_example_with_step is a run with a genuine step); not lifted to several priority levels; PointArcCoincident is covered since Real/FDerivKinds3.lean (StrictPAC: both distances of row 0 strictly above EPS - with equality the Jacobian row is NOT continuous, machine-checked witness pacB_not_kindC1 - and rows 1, 2 strictly inside the gate, or strictly outside with non-zero orientation and cross product; automatically true at a zero of the residual with radius > EPS, strictPAC_of_r0_zero): RegularAt3 / kindC1_of_regular3 cover all 23 kinds and model_newtonLoop_C02_3, model_solveInner_C02_3, model_solve_C02_single_level_3 (Real/FDerivLoop3.lean) are the loop / entry-point statements for every kind (non-vacuity: pac1, a fully determined system with a PointArcCoincident request); nothing here is about f64",
+        "partial": ["convergence of the f64 iteration (success, iteration count <= 8, landing within 1.5x) is NOT proved: the theorems give the loop's anatomy (every round is residual test -> damped step of the Jacobian at the current point -> step test), existence/uniqueness/descent of the exact step, monotone approach on consistent linear systems, and the abstract contraction argument with the constant 1.5; that a given planted system satisfies the contraction hypothesis is left to the oracle on the real code; the exact-arithmetic statement is now instantiated for the MODEL's own assembled residual and Jacobian (Real/FDerivEntry.lean): for request lists made of every kind (PointArcCoincident: see the end of this note) (Real/FDerivKinds.lean: the guard-free kinds with no hypothesis, distance / linesEqualLength / arcRadius with points strictly farther apart than EPS; Real/FDerivKinds2.lean: the three point-line distances, lineTangentToCircle, symmetric, arcLength, circleTangentToCircle, explicit angles and arcAngle, each under the hypothesis that every guard of its residual and Jacobian kernel is strictly inactive at x* and, for the angle kinds, that x* is off the atan2 cut - RegularAt2) the assembled residual rOf is Frechet differentiable at x* with derivative the model's Jacobian JOf, JOf is continuous there (hasFDerivAt_rOf_regular), one continuing round of the model's newtonStep with an exact solver IS the map x -> x - (J^T J + lambda I)^-1 J^T r(x) (newtonStep_eq_gnMap, all kinds), and hence for a zero x* with sigma_min(J)^2 >= c > lambda the CONTINUING rounds the model's loop executes from within rho of x* halve the error and stay within 1.5|x0 - x*| of the guess (model_newtonRun_C02, model_newtonRun_C02_2; four concrete non-linear systems meet the hypotheses of the gnMap form with lambda = 1e-9; and - Real/FDerivLoop.lean - for the RESULT of the loop, including the extra step of a step-size return: model_newtonLoop_C02 (|res.values - x*| <= (1/2)^(iterations - k) |x - x*| and |res.values - x| <= 1.5 |x - x*|), model_solveInner_C02 and model_solve_C02_single_level (the same two bounds for o.finalValues relative to the guesses at the public entry point with one priority level; loop_C02_example_with_step is a run with a genuine step); not lifted to several priority levels; PointArcCoincident is covered since Real/FDerivKinds3.lean (StrictPAC: both distances of row 0 strictly above EPS - with |centre - p| = EPS exactly the Jacobian row is NOT continuous, machine-checked witness pacB_not_kindC1; the same argument for radius = EPS is stated in a docstring only - and rows 1, 2 strictly inside the gate, or strictly outside with non-zero orientation and cross product; automatically true at a zero of the residual with radius > EPS, strictPAC_of_r0_zero): RegularAt3 / kindC1_of_regular3 cover all 23 kinds and model_newtonLoop_C02_3, model_solveInner_C02_3, model_solve_C02_single_level_3 (Real/FDerivLoop3.lean) are the loop / entry-point statements for every kind (non-vacuity: pac1, a fully determined system with a PointArcCoincident request); nothing here is about f64",
                     "gauss_newton_local_C02 (LocalContraction.lean) proves the whole chain for the exact iteration: error map differentiable at x* with Jacobian J, sigma_min(J)^2 >= c > lambda > 0, iteration operator continuous at x* => a ball around x* on which the error halves every round and no iterate is farther from the guess than 1.5x; continuity of the iteration operator is derived from continuity of the Jacobian at x* (gauss_newton_local_C02_of_continuous_jacobian); rank-deficient ('not pinned down') systems are outside it: the defect operator is the identity on ker J (damped_defect_on_kernel), which is the regime of known finding F15",
                     "under-determined planted systems do land farther than 1.5x from the guess in about 0.02% of the cases on the real code (known finding F15)"],
         "assumptions": ["the LU answer is a parameter of the loop theorems; over the reals it is characterised by IsStep (existence and uniqueness proved), and held to it on recorded traces by the step certificate"],
@@ -115,7 +115,7 @@ PROPS = {
         ],
         "partial": ["the 1e-4*scale closeness of the f64 result to the exact minimum-norm least-squares point (effect of lambda = 1e-9, of stopping early, of rounding) is not proved: the theorems give the exact algebra (one step is the Tikhonov minimiser; displacement stays in range(A^T); a stationary point with displacement in range(A^T) is the unique nearest least-squares point; the last step d certifies stationarity up to lambda*|d|); in exact arithmetic a consistent system converges geometrically with factor lambda/(c+lambda) per round to the solution nearest the guess, c a lower bound of |Az|^2/|z|^2 on range(A^T), which exists and is positive for every matrix (gap_exists), and the nearest solution exists (nearest_solution_exists): linear_consistent_converges_from_guess has no hypothesis beyond consistency; that the f64 iteration gets there within 35 rounds and stops is left to the exact-rational oracle on the real code",
                     "unmentioned variables: untouched_var_fixed' (Proofs/Untouched2.lean, every scalar type) says: no request mentions j (=> no triplet in column j, jacobianAll_no_column) and the solver returns a neutral element of + in slot j for Jacobians without a column j (ZeroStepOn) => j is returned at its guess; over the reals every exact solver satisfies ZeroStepOn (zeroStepOn_of_exact via untouched_var_step_zero), giving unmentioned_variable_returned_at_guess with no hypothesis on the solver beyond exactness with a non-zero damping (StepEx.unmentioned_example_with_step is a run that takes a real step with an exact damped solver); that faer's LU returns exactly 0.0 there is checked on every recorded trace (zero-column certificate). For f64 'exactly at its guess' means equal as numbers: a guess of -0.0 comes back as +0.0 (-0.0 + 0.0)",
-                    "the linear-algebra theorems are tied to the model by Real/LinearEntry.lean: for a list of linear kinds the assembled residual is A x - b with a constant A (assembled_affine), one round of the model's loop with an exact solver is IsStep A (A x - b) lambda (x' - x) (newtonStep_isStep), and after j executed rounds of newtonLoop the squared distance to the nearest solution of a consistent system has contracted by q^(2j), q < 1 depending only on the requests and lambda (newtonRun_converges_prefix, newtonLoop_result_contracts); for INCONSISTENT systems too (Real/LeastSquaresLimit.lean, Real/LeastSquaresEntry.lean): the normal equations are always consistent (normal_equations_consistent), the least-squares point nearest the guess exists and is unique (nearest_least_squares_exists(_spec), nearest_least_squares_point_unique), and every run of exact damped rounds converges geometrically to it with a rate depending on A and lambda only (linear_converges_to_least_squares, no consistency hypothesis; model level: newtonRun_converges_prefix_ls, newtonLoop_result_contracts_ls; non-vacuity on the inconsistent pair 'x = 0', 'x = 1' with limit 1/2)"],
+                    "the linear-algebra theorems are tied to the model by Real/LinearEntry.lean: for a list of linear kinds the assembled residual is A x - b with a constant A (assembled_affine), one round of the model's loop with an exact solver is IsStep A (A x - b) lambda (x' - x) (newtonStep_isStep), and after j executed rounds of newtonLoop the squared distance to the nearest solution of a consistent system has contracted by q^(2j), q < 1 depending only on the requests and lambda (newtonRun_converges_prefix, newtonLoop_result_contracts); for INCONSISTENT systems too (Real/LeastSquaresLimit.lean, Real/LeastSquaresEntry.lean): the normal equations are always consistent (normal_equations_consistent), the least-squares point nearest the guess exists and is unique (nearest_least_squares_exists(_spec), nearest_least_squares_point_unique), and every run of exact damped rounds converges geometrically to it with a rate depending on A and lambda only (linear_converges_to_least_squares, no consistency hypothesis; model level: newtonRun_converges_prefix_ls, newtonLoop_result_contracts_ls; non-vacuity: at matrix level the inconsistent pair 'x = 0', 'x = 1' with limit 1/2 (ex_inconsistent, ex_stationary_unique); at model level the theorem is instantiated on the request list twoFixed, proved inconsistent, without exhibiting a run of j >= 1 rounds; an inconsistent system can only return at the step-size test, where newtonLoop_result_contracts_ls gives q^(2 iterations), the trivial bound for a round-0 stop)"],
         "assumptions": ["the LU answer is a parameter; IsStep characterises it over the reals"],
         "rule": "linear systems over up to 8 points with dyadic-rational parameters and guesses (consistent, redundant, contradictory, rank-deficient) solved by the real code and compared with x* = x0 + pinv(A)(b - A x0) computed exactly (sympy rationals); systems of any kind with extra unmentioned variables must return those at their guesses (equal as f64 values: bit for bit except that a -0.0 guess may come back as +0.0)",
     },
@@ -195,7 +195,7 @@ PROPS = {
             {"bin": "oracle_c10", "min_stats": {"systems": 0.5, "both_ok": 0.479, "repeated_calls": 1.0, "texts": 0.125, "text_runs_under_other_configs": 0.625, "of_which_fail": 0.495, "fresh_thread_solves": 0.781}, "quick": ("{seed}", "4000"), "thorough": ("{seed}", "20000"), "digest_twice": True, "second_args": ["rev"]},
         ],
         "partial": ["analysis_only_adds_failure_partial: proved under the hypothesis hok that plain and analysed level runs agree at EVERY (priority value, call index) pair - stronger than 'the analysis succeeds at every attempted level'; analysis_only_adds_failure_levels needs the agreement only for the j-th level of the list at call index j (levels after the first unsatisfied one are still included, so an analysis failure at a level that is never attempted falsifies the hypothesis although the conclusion holds); without any such hypothesis the statement is false of the code (known finding F10)",
-                    "'the text front-end's solve methods agree': the four methods (solve, solve_with_config, solve_with_config_analysis, solve_no_metadata) and their two private helpers are modelled in Model/TextMethods.lean; their call structure is regenerated from executor.rs on every run (Gen.TEXT_METHODS, tools/extract.py) and pinned by text_methods_shape; proved for every scalar type and every oracle (Proofs/TextMethods.lean): solve = solve_with_config(default); solve_with_config returns exactly solve_no_metadata's fields plus the labelling of its final values, fails with the same failure, and for a system built from the problem never panics in the labelling (withConfig_of_noMetadata_ok/_error/_panic, withConfig_label_total); since every text constraint has priority 0 the solve is single-level, F10 cannot occur, and the analysis clause holds with NO hypothesis: text_plain_fails_then_analysis_fails, text_analysis_only_adds_failure (same labelled outcome plus analysis, or a failure, or a panicking analysis step - never a different outcome), text_analysis_ok_then_plain_ok; bit-identity of the f64 results of the real methods is checked on the real code (oracle_c10: default and five non-default configurations, most of which make the solve fail)",
+                    "'the text front-end's solve methods agree': the four methods (solve, solve_with_config, solve_with_config_analysis, solve_no_metadata) and their two private helpers are modelled in Model/TextMethods.lean; their call structure, their bodies (whitespace- and comment-free text; the labelling function as a SHA-256) and the priority 0 that to_constraint_system assigns are regenerated from executor.rs on every run (Gen.TEXT_METHODS, Gen.TEXT_METHOD_BODIES, Gen.TEXT_PRIORITY, tools/extract.py) and pinned by text_methods_shape, text_method_bodies, text_priority_zero - any edit of these functions, harmless or not, breaks the tie and sends the check to the search on the real code; SCOPE: systems as built by to_constraint_system - the Rust field `constraints` is public, and a caller who pushes a request of another priority into a built system gets the library's multi-priority solve, where F10 applies (the model's ConstraintSystem has no priorities); proved for every scalar type and every oracle (Proofs/TextMethods.lean): solve = solve_with_config(default); solve_with_config returns exactly solve_no_metadata's fields plus the labelling of its final values, fails with the same failure, and for a system built from the problem never panics in the labelling (withConfig_of_noMetadata_ok/_error/_panic, withConfig_label_total); since every text constraint has priority 0 the solve is single-level, F10 cannot occur, and the analysis clause holds with NO hypothesis: text_plain_fails_then_analysis_fails, text_analysis_only_adds_failure (same labelled outcome plus analysis, or the Newton run succeeds and runAnalysis on its last Jacobian fails and that very error is returned - or unwinds, if it is a panic; never a different outcome, never a failure of the solve itself), text_analysis_ok_then_plain_ok; bit-identity of the f64 results of the real methods is checked on the real code (oracle_c10: default and five non-default configurations, most of which make the solve fail)",
                     "bit-reproducibility of faer and libm across processes is sampled (digest of all results compared between two fresh processes), not proved"],
         "rule": "planted, linear, contradictory, prioritised and collapsed-guess systems: two calls in one process and two fresh processes (digest) must agree bit for bit including the ordered warnings list; solve vs solve_analysis field by field; plus generated problem texts through the text front-end: solve() twice, solve_with_config, solve_with_config_analysis, solve_no_metadata and the library call on the same constraints and guesses must agree bit for bit (labelled values included)",
         "assumptions": ["faer is built without the rayon feature (extracted from Cargo.toml on this run): sequential linear algebra"],
